@@ -157,6 +157,27 @@ impl RlteCatalog {
 
     #[inline]
     fn lb_ub_one_string(ladder: &[String], t: &str, asc: bool, zone_size: usize) -> (usize, usize) {
+        if asc {
+            // The ladder lists the zone's values in DESCENDING order (rank 1 is the largest) and
+            // always ends with the smallest one, so walking it from the top says nothing about how
+            // many values are <= t. Only its extremes are usable for ascending order: no value is
+            // <= t when even the minimum is above t, all are when the maximum is, and otherwise at
+            // least the minimum is.
+            let min = ladder.iter().map(|s| s.as_str()).min();
+            let max = ladder.iter().map(|s| s.as_str()).max();
+            return match (min, max) {
+                (Some(min), Some(max)) => {
+                    if min > t {
+                        (0, 0)
+                    } else if max <= t {
+                        (zone_size, zone_size)
+                    } else {
+                        (1.min(zone_size), zone_size)
+                    }
+                }
+                _ => (0, 0),
+            };
+        }
         // Geometric checkpoints (1,2,4,8,...) based on ladder order.
         // We do not assume perfect monotonicity, but use string compare consistently.
         let mut r = 1usize;
